@@ -20,68 +20,118 @@ import numpy as np
 from runner import Infra
 
 ID = "C01"
-LEAN_MODULES = ["PyYetiVerif.Props.C01", "PyYetiVerif.Audit.C01"]
+LEAN_MODULES = [
+    "PyYetiVerif.Props.C01",
+    "PyYetiVerif.Props.C01Part",
+    "PyYetiVerif.Props.C01Static",
+    "PyYetiVerif.Props.C01Unique",
+    "PyYetiVerif.Props.C01Coupled",
+    "PyYetiVerif.Props.C01Delconj",
+    "PyYetiVerif.Props.C01Exp",
+    "PyYetiVerif.Audit.C01",
+]
 AUDIT_FILE = "PyYetiVerif/Audit/C01.lean"
 THEOREMS = [
     "PyYetiVerif.C01." + n
     for n in (
         "su_solves_ode_under su_solves_ode_over su_solves_ode_crit su_solves_ode_rb su_solves_ode_rb_damped "
         "su_solves_ode su_coef_eq order0_exact rigidVelo_velocity_exact rf_static run_exact run_length "
-        "accel_eom mNone_eq_mOne cplx_solves_ode cplx_coef_eq cplx_small_exact partition_ok rb_order_agrees"
+        "accel_eom mNone_eq_mOne cplx_solves_ode cplx_coef_eq cplx_small_exact partition_ok rb_order_agrees "
+        # partition bookkeeping, second part (Props/C01Part.lean)
+        "el_order_agrees partition_auto_ok small_unc_iff small_coupled_iff mkSlice_spec slicesFlag_iff "
+        # initial conditions and rf rows (Props/C01Static.lean)
+        "rf_static_rows static_ic_ok explicit_ic zero_ic "
+        # uniqueness (Props/C01Unique.lean)
+        "isSol_unique su_solves_ode_unique run_exact_unique "
+        # coupled path (Props/C01Coupled.lean, Props/C01Delconj.lean)
+        "decoupled_recovers coupled_step_exact coupled_run_exact sol2R_exists delconj_recovers coupled_run_exact_real "
+        "oscKept_spec "
+        # SolveExp2 (Props/C01Exp.lean)
+        "exp2_step_exact exp2_run_exact freeA_spec"
     ).split()
 ]
 TRUSTED = [
     "correspondence harness harness/props/c01.py (|impl-model| <= 1e-9*scale, scale = largest magnitude among the "
-    "added terms; coupled/expm paths 1e-7*scale*cond(phi))",
+    "added terms; streams through eig/expm 1e-9*scale*cond of the eigenvectors; closed-form stream 1e-7*scale*cond(phi))",
     "numpy/libm exp, sin, cos, sqrt, pow at Float (1-ulp differences between numpy and Lean's C library calls)",
-    "scipy.linalg.eig / eigh / lu_solve and expmint.getEPQ are not modelled: the coupled path, pre_eig and "
-    "SolveExp1/2 are compared with the closed form mapped through chosen mode shapes (residual measured per run)",
+    "scipy.linalg.eig / inv (coupled path), eigh (pre_eig), lu_solve and expmint.getEPQ are not modelled: they enter "
+    "the theorems as hypotheses (DelconjSpec: the eigen-decomposition rebuilt from pc.lam, pc.ur, pc.ur_inv diagonalises "
+    "A and is inverted by ur_inv; ExpSpec: E, P, Q are exp(Ah) and its two integrals) and these hypotheses are measured "
+    "on the implementation's own pc / E, P, Q on every run with plain numpy / scipy.linalg.expm (residual <= 1e-9*cond, "
+    "resp. 1e-8); M^-1 F, the coupled static initial state K_ee^-1 F0 and the coupled acceleration M^-1 (F - B v - K d) "
+    "are evaluated with numpy inside the harness from the model's d, v",
     "switch errors of the cut-offs (|w2/wo2| < 1e-8 treated as critical, |lam| < 5e-5 treated as zero, "
-    "wo2 < 0.005 treated as rigid) and the (w h)^-3 cancellation are floating-point facts: measured, not proved",
+    "wo2 < 0.005 treated as rigid), the (w h)^-3 cancellation of the uncoupled coefficients and the (|lam| h)^-2 "
+    "cancellation of the complex coefficients Ae, Be are floating-point facts: measured, not proved",
 ]
 RULE = (
     "(a) one case = one scalar mode (m|None, b, k, h, rb flag, rf flag) drawn per regime (rigid, rigid-damped "
     "velocity-only, rigid-damped full, under, critical, over, rf) plus both sides of every cut-off (nextafter / "
     "ulp jitter around wo2 = 0.005, |rat| = 1e-8, |C| = 1e-5/sqrt(h), |C| = 10(1e-10/h)^(1/3), |lam| = 5e-5); "
     "non-trivial = a dynamic regime (not rf) with h > 0; distinct by the input bit patterns. (p) one case = "
-    "(n, rb, rf, small-k flags), exhaustive for n <= 4 in the thorough tier. (b) one case = a modal system (n <= 6 "
+    "(n, rb, rf, small-k flags), exhaustive for n <= 4 in the thorough tier; (p2) one case = coupled non-rf k, b "
+    "(n <= 6, entries on both sides of the 0.005 tolerance, in rows only / columns only / k only / b only) x rf set, "
+    "rb auto-detected; non-trivial = both rb and el non-empty. (b) one case = a modal system (n <= 6 "
     "modes of mixed regimes, contiguous or interleaved rb/el/rf order) x order x mass packaging x rb given/auto x "
     "static_ic x d0/v0, nt <= 24 samples; non-trivial = at least one dynamic mode and nt >= 3. (c) one case = modal "
-    "data + a well-conditioned mode-shape matrix, compared on five solver variants"
+    "data + a well-conditioned mode-shape matrix, compared on five solver variants. (q) one case = a coupled system "
+    "(general M, symmetric / skew / mixed / no damping, gyroscopically coupled zero-stiffness DOF, or built from modal "
+    "data with block rigid-body modes) x order x d0/v0/static_ic; the Lean model is run on the implementation's own "
+    "pc.lam, ur, ur_inv; cond(eigenvectors) > 1e6 skipped and counted; a mode with 5e-5 <= |lam| and |lam| h < 1e-3 is "
+    "outside the conditioning domain (Ae, Be lose (|lam| h)^-2 digits by cancellation): skipped and counted, tolerance "
+    "graded by (1e-2/(|lam| h))^2 for 1e-3 <= |lam| h < 1e-2 (same rule in the oracle). (r) the same systems (any damping, singular "
+    "stiffness allowed) and uncoupled ones with rf modes through SolveExp2, the Lean model run on its own E, P, Q"
 )
 ASSUMPTIONS = [
     "mass is non-singular and the rb/rf partitions are given in modal space (documented domain)",
     "theorems are over the reals / complexes; Float evaluation is used only in the correspondence check",
-    "coupled-path statements rest on the eigen-decomposition / matrix-exponential specifications (measured, not proved)",
+    "coupled-path theorems: the kept eigen-data satisfy DelconjSpec (rebuilt decomposition: U V = 1, V U = 1, "
+    "A U = U diag(lam), real modes real, small-eigenvalue branch only for zero eigenvalues); SolveExp2 theorems: "
+    "E, P, Q satisfy ExpSpec (E = exp(A h), P, Q its hold integrals); both measured per run, not proved of scipy",
 ]
 PARTIAL = (
-    "partial: (1) the coupled path (eig), pre_eig (eigh) and SolveExp1/2 (expm) are tied to the closed form by "
-    "correspondence only; decoupled_recovers is not proved; (2) uniqueness of the ODE solution is not proved (every "
-    "sample is the end state of *a* solution of the equation of motion with the hold forcing, started from the "
-    "previous sample); (3) the rigid-damped velocity-only regime is exact for the velocity only (by design of the "
-    "source: rigidVelo_velocity_exact states the displacement defect); (4) partition_ok covers an explicit rb "
-    "vector; auto-detected rb, mkSlice/slices and the static-initial-condition set-up are tied by exact / numeric "
-    "correspondence only (exhaustive n <= 4 in the thorough tier); (5) cd_as_force (off-diagonal damping as force) "
-    "is outside the exactness property and not modelled; (6) switch errors of the cut-offs and cancellation below "
+    "partial: (1) scipy.linalg.eig/inv, eigh (pre_eig), lu_solve and expmint's Pade evaluation are not modelled: "
+    "decoupled_recovers / delconj_recovers / coupled_run_exact_real and exp2_step_exact / exp2_run_exact are proved "
+    "*given* the eigen-decomposition resp. E = exp(Ah), P, Q (the hypotheses are measured on the implementation's own "
+    "values each run; Props/C07 proves the series-level content of E, P, Q); the pre_eig transformation (eigh, modal "
+    "force phi'F, initial conditions phi^-1 d0) and SolveExp1 are tied by correspondence only; the rigid-body recurrence "
+    "of the coupled path (rbStep) is tied by correspondence and is the rigid regime of su_coef_eq algebraically, no "
+    "separate theorem; (2) the rigid-damped velocity-only regime is exact for the velocity only (by design of the "
+    "source: rigidVelo_velocity_exact states the displacement defect); (3) the coupled static initial state "
+    "(np.linalg.solve(k_ee, F0)) and the coupled acceleration (lu_solve) are evaluated by numpy in the harness, not "
+    "by the Lean model; (4) cd_as_force (off-diagonal damping as force) is outside the exactness property and not "
+    "modelled; (5) switch errors of the cut-offs (|lam| < 5e-5, |w2/wo2| < 1e-8, wo2 < 0.005) and cancellation below "
     "w*h = 1e-2 are floating-point facts: measured, not proved"
 )
 MANIFEST = {
     "level_text": "Proof (Lean 4, kernel-checked, standard axioms only) about ONE polymorphic transcription of "
-    "get_su_coef and of the SolveUnc recurrences: for each regime (under-, over-, critically damped, rigid, damped "
-    "rigid) the closed form built from the code's own F, G, Fp, Gp is differentiable with x' = v, v' = a, satisfies "
-    "m a + b v + k x = p + s t and the initial conditions; the code's A, B, Ap, Bp make one step equal to that solution at "
-    "t = h for a force linear on the step (order 1) or held (order 0); by induction every sample of the recurrence is "
-    "the end state of such a solution started at the previous sample; the returned acceleration satisfies the equation "
-    "of motion; the complex-eigenvalue coefficients Fe, Ae, Be solve y' = lam y + w0 + s t; for an explicit rb vector "
-    "rb/el/rf partition [0,n) and the positions handed to get_su_coef select exactly the rb modes. "
-    "The same definitions run at Float and are compared with get_su_coef, SolveUnc.tsolve (option grid), the "
-    "coupled path, pre_eig, SolveExp2 and SolveExp1 on every run.",
-    "level_note": "Trusted: Lean kernel; propext, Classical.choice, Quot.sound; the Python harness; libm. Partial: the "
-    "eigen-decomposition / matrix-exponential paths are tied by correspondence only; uniqueness not proved; cut-off "
-    "switch errors and cancellation below w*h = 1e-2 are measured, not proved.",
+    "get_su_coef and of the SolveUnc / SolveExp2 recurrences. Uncoupled path: for each regime (under-, over-, critically "
+    "damped, rigid, damped rigid) the closed form built from the code's own F, G, Fp, Gp solves m a + b v + k x = p + s t "
+    "with the initial conditions; the code's A, B, Ap, Bp make one step equal to that solution at t = h (order 1 and 0); "
+    "the solution is unique (Groenwall, Mathlib), so every sample of the recurrence is the end state of THE solution "
+    "started at the previous sample (run_exact_unique); the returned acceleration satisfies the equation of motion. "
+    "Coupled path: if A U = U diag(lam), U V = 1, the modal recurrence with the code's Fe, Ae, Be mapped back through U "
+    "is the state of THE solution of z' = A z + [M^-1 f; 0] (decoupled_recovers), the d / v blocks are those of the "
+    "second-order equation (coupled_step_exact, coupled_run_exact), and for real systems the kept-conjugate recurrence "
+    "with the doubled eigenvectors and rur_d ry - iur_d iy recovers exactly that real solution, sample after sample "
+    "(delconj_recovers, coupled_run_exact_real). SolveExp2: given E = exp(Ah) and the two hold integrals, every sample "
+    "of the E/P/Q recurrence is the end state of THE solution (exp2_step_exact, exp2_run_exact). Bookkeeping: rb/el/rf "
+    "partition [0,n) for explicit and auto-detected rb (uncoupled |k| test, coupled row/column maxima of |k|, |b|), "
+    "nonrf[_rb] = rb and nonrf[_el] = el in order, _mk_slice converts exactly the contiguous ranges; static_ic gives "
+    "k d0 = F0, v0 = 0, a0 = 0 on elastic rows, rf rows are the static solution. The same definitions run at Float and "
+    "are compared with get_su_coef, SolveUnc.tsolve (option grid), the coupled path (closed form, and driven by the "
+    "implementation's own eigen-decomposition), pre_eig, SolveExp2 (closed form, and driven by its own E, P, Q) and "
+    "SolveExp1 on every run.",
+    "level_note": "Trusted: Lean kernel; propext, Classical.choice, Quot.sound; the Python harness; libm. Partial: "
+    "scipy's eig / inv / eigh / lu_solve and expmint's Pade evaluation are hypotheses of the coupled and SolveExp2 "
+    "theorems, measured on the implementation's own values on every run (not proved); pre_eig and SolveExp1 are tied by "
+    "correspondence only; cut-off switch errors and cancellation below w*h = 1e-2 are measured, not proved.",
     "technique": "Lean 4 proof (HasDerivAt of closed forms through one polymorphic definition, field_simp/ring "
-    "identities, induction over steps) + numeric differential correspondence at Float + model-free oracle "
-    "(solver agreement, step-subdivision invariance, option invariance, EOM residual)",
+    "identities, induction over steps, Mathlib ODE uniqueness, Matrix algebra over C for the decoupling and the "
+    "conjugate-pair reduction, variation of constants for E/P/Q) + numeric differential correspondence at Float "
+    "(including streams in which the model is driven by the implementation's own eig / expm results, with the "
+    "hypotheses of the theorems measured) + model-free oracle (solver agreement, scipy-expm reference, step-subdivision "
+    "invariance, option invariance, static equilibrium, EOM residual)",
 }
 
 NAMES = "F G A B Fp Gp Ap Bp".split()
@@ -854,6 +904,447 @@ def _corr_coupled(ctx, drv):
     ctx.sample({"stream": "coupled", "worst_scaled_error": {k: float("%.2e" % v) for k, v in worst.items()}})
 
 
+# ---------------------------------------------------------------------------------------
+# stream (p2): auto-detected rigid-body set of coupled systems (exact)
+
+
+def _partc_cases(ctx, rng):
+    tol = 0.005
+    near = [0.0, tol, -tol, float(np.nextafter(tol, 0)), float(np.nextafter(tol, 1)), -float(np.nextafter(tol, 0)),
+            -float(np.nextafter(tol, 1)), 0.0049, -0.0049, 0.0051, 1e-4, -2e-4]
+    out = []
+    for _ in range(ctx.pick(400, 4000)):
+        n = int(rng.integers(2, 7))
+        rf = sorted(int(i) for i in np.nonzero(rng.random(n) < 0.2)[0])
+        if len(rf) > n - 2:
+            rf = rf[: max(0, n - 2)]
+        nr = n - len(rf)
+        K = np.zeros((nr, nr))
+        B = np.zeros((nr, nr))
+        small = rng.random(nr) < 0.5  # candidate rigid-body positions
+        for X in (K, B):
+            for i in range(nr):
+                for j in range(nr):
+                    if small[i] or small[j]:
+                        X[i, j] = float(rng.choice(near)) if rng.random() < 0.5 else 0.0
+                    else:
+                        X[i, j] = float(rng.standard_normal() * 50) if (i == j or rng.random() < 0.5) else 0.0
+        if rng.random() < 0.3 and small.any():
+            # one entry well above the tolerance in the row or in the column only, in k or in b only
+            i = int(rng.choice(np.nonzero(small)[0]))
+            j = int(rng.integers(0, nr))
+            X = K if rng.random() < 0.5 else B
+            if rng.random() < 0.5:
+                X[i, j] = float(rng.choice([1.0, -1.0, 0.006, -0.006]))
+            else:
+                X[j, i] = float(rng.choice([1.0, -1.0, 0.006, -0.006]))
+        off = ~np.eye(nr, dtype=bool)
+
+        def diagonal(X):
+            # the documented coupling test (ytools.isdiag on the full matrices, rf rows included: off-diagonal
+            # <= 1e-12 * largest diagonal entry; the rf stiffness used below is 1e6)
+            return np.abs(X[off]).max() <= 1e-12 * max(np.abs(np.diag(X)).max(), 1e6 if rf else 0.0)
+
+        if diagonal(K) and diagonal(B):
+            # keep the system coupled (otherwise the uncoupled test `abs(k) < tol` applies): an off-diagonal stiffness
+            # entry below the rigid-body tolerance but far above the coupling tolerance
+            K[0, 1] = 0.004 if (small[0] or small[1]) else 1.0
+        out.append((n, rf, K, B))
+    return out
+
+
+def _corr_partc(ctx, drv):
+    ode = _ode()
+    rng = ctx.np_rng(6)
+    cases = _partc_cases(ctx, rng)
+    req = ["partc %d %s %s %s" % (n, " ".join([str(len(rf))] + [str(i) for i in rf]), _fmat(K), _fmat(B))
+           for n, rf, K, B in cases]
+    rep = drv.ask(req)
+    for (n, rf, K, B), r in zip(cases, rep):
+        nonrf = [i for i in range(n) if i not in rf]
+        Kf, Bf = np.zeros((n, n)), np.zeros((n, n))
+        Kf[np.ix_(nonrf, nonrf)] = K
+        Bf[np.ix_(nonrf, nonrf)] = B
+        for i in rf:
+            Kf[i, i] = 1e6
+        parts = r.split("|")
+        model = [[int(x) for x in p_.split()] for p_ in parts[:7]] + [parts[7] == "1"]
+        inp = {"stream": "partc", "n": n, "rf": rf, "k": K.tolist(), "b": B.tolist()}
+        try:
+            s = ode.SolveExp2(None, Bf, Kf, 0.01, rf=rf or None)
+        except Exception as e:  # noqa: BLE001
+            ctx.disagree("partition-coupled-raises", inp, type(e).__name__ + ": " + str(e)[:80], model)
+            continue
+        impl = [_idx(s.nonrf, n), _idx(s.rf, n), _idx(s.rb, n), _idx(s.el, n), _idx(s._rb, n - len(rf)),
+                _idx(s._el, n - len(rf))]
+        if impl != model[:6] or bool(s.slices) != model[7]:
+            ctx.disagree("partition-coupled", inp, impl + [bool(s.slices)], model)
+        else:
+            try:
+                with warnings.catch_warnings():
+                    warnings.simplefilter("ignore")
+                    u = ode.SolveUnc(None, Bf, Kf, 0.01, rf=rf or None)
+                # get_su_eig shrinks kdof to the elastic set: kdof = nonrf[_el] = el (el_order_agrees)
+                got = [_idx(u.rb, n), _idx(u.el, n), _idx(u.kdof, n)]
+                if got != [model[2], model[3], model[3]]:
+                    ctx.disagree("partition-coupled-SolveUnc", inp, got, [model[2], model[3], model[3]])
+            except (np.linalg.LinAlgError, ValueError):
+                ctx.count("partc:SolveUnc-eig-refuses")
+        ctx.case((n, tuple(rf), K.tobytes(), B.tobytes()), nontrivial=bool(model[2]) and bool(model[3]),
+                 branch="partc:auto")
+        if model[2]:
+            ctx.count("partc:with-rb")
+        if rf:
+            ctx.count("partc:with-rf")
+        if model[7]:
+            ctx.count("partc:slices")
+        else:
+            ctx.count("partc:no-slices")
+
+
+# ---------------------------------------------------------------------------------------
+# stream (q): coupled path of SolveUnc driven with the implementation's own eigen-decomposition
+# stream (r): SolveExp2 driven with the implementation's own E, P, Q
+# The Lean model (`coupledRun`, `rbStep`, `runExp`) gets pc.lam/ur/ur_inv (resp. E, P, Q) as the specification
+# instance; the hypotheses of delconj_recovers / exp2_step_exact (DelconjSpec / ExpSpec) are measured on
+# that instance with plain numpy/scipy; M^-1 F, the static initial state and the acceleration are computed here.
+
+
+def _cbits(z):
+    z = complex(z)
+    return bits(z.real) + " " + bits(z.imag)
+
+
+def _cmat(a):
+    return " ".join(_cbits(z) for z in np.asarray(a, complex).ravel())
+
+
+def _fmat(a):
+    return " ".join(bits(x) for x in np.asarray(a, float).ravel())
+
+
+def _gen_pc_specs(ctx, rng, n_general, n_modal):
+    out = []
+    tries = 0
+    while len(out) < n_general and tries < 20 * n_general:
+        tries += 1
+        s = _gen_general(rng)
+        if s["nz"] and not (s["style"] == "skew-on-zero-stiffness" and s["nz"] >= 2):
+            continue
+        s["static"] = bool(s["d0"] is None and s["nz"] == 0 and rng.random() < 0.5)  # K_ee must be non-singular
+        out.append(s)
+    for _ in range(n_modal):
+        c = _gen_coupled(ctx, rng)
+        if min(c["k"]) == 0 and not c.get("blockphi"):
+            continue
+        M, B, K = _physical(c, np.array(c["phi"]))
+        if c.get("blockphi") and rng.random() < 0.5:
+            c = dict(c, d0=None)  # static initial conditions together with rigid-body rows (which must start at zero)
+        out.append({"kind": "general", "n": c["n"], "h": c["h"], "order": c["order"], "style": "modal", "nz": 0,
+                    "M": M.tolist(), "B": B.tolist(), "K": K.tolist(), "F": c["F"], "d0": c["d0"], "v0": c["v0"],
+                    "static": bool(c["d0"] is None and (c.get("blockphi") or rng.random() < 0.5)),
+                    "blockphi": bool(c.get("blockphi")), "usys": c})
+    return out
+
+
+def _static_d0(K, F0, el, n):
+    d0 = np.zeros(n)
+    if len(el) and np.any(F0[el]):
+        d0[el] = np.linalg.solve(K[np.ix_(el, el)], F0[el])
+    return d0
+
+
+def _state_matrix(M, B, K):
+    n = K.shape[0]
+    Mi = np.linalg.inv(M)
+    A = np.zeros((2 * n, 2 * n))
+    A[:n, :n] = -Mi @ B
+    A[:n, n:] = -Mi @ K
+    A[n:, :n] = np.eye(n)
+    return A
+
+
+def _slow_mode_grade(lam, h):
+    """SolveUnc's complex coefficients Ae, Be = O(h) are formed from terms of size 1/(lam^2 h): below |lam| h = 1e-2
+    they lose (|lam| h)^-2 digits by cancellation (the coupled-path counterpart of the (w h)^-3 rule of the uncoupled
+    path).  Returns None (out of scope: a mode with 5e-5 <= |lam| and |lam| h < 1e-3) or the factor by which
+    tolerances are graded ((1e-2 / (|lam| h))^2 in the band 1e-3 <= |lam| h < 1e-2, else 1)."""
+    a = np.abs(np.asarray(lam))
+    a = a[a >= 5.0e-5]
+    if a.size == 0:
+        return 1.0
+    lh = float(a.min() * h)
+    if lh < 1e-3:
+        return None
+    return max(1.0, (1e-2 / lh) ** 2)
+
+
+def _delconj_spec(pc, A):
+    """the five conditions of DelconjSpec measured on the kept data: (residual, cond(fullU)) or a string"""
+    lam = np.asarray(pc.lam)
+    ur = np.vstack([np.asarray(pc.ur_v), np.asarray(pc.ur_d)])
+    ui = np.hstack([np.asarray(pc.ur_inv_v), np.asarray(pc.ur_inv_d)])
+    if np.any(lam.imag < 0):
+        return "conjugates-not-deleted"
+    cpx = lam.imag > 0
+    U = np.hstack([ur / np.where(cpx, 2.0, 1.0)[None, :], np.conj(ur[:, cpx]) / 2.0])
+    V = np.vstack([ui, np.conj(ui[cpx])])
+    L = np.concatenate([lam, np.conj(lam[cpx])])
+    if U.shape[0] != U.shape[1]:
+        return "rebuilt-decomposition-not-square"
+    cond = np.linalg.cond(U)
+    nA = max(1.0, np.abs(A).max())
+    res = max(np.abs(U @ V - np.eye(U.shape[0])).max(), np.abs(V @ U - np.eye(U.shape[0])).max(),
+              np.abs(A @ U - U * L[None, :]).max() / (nA * max(1.0, np.abs(U).max())))
+    re = ~cpx
+    if re.any():
+        res = max(res, np.abs(ur[:, re].imag).max() / max(1e-300, np.abs(ur).max()),
+                  np.abs(ui[re].imag).max() / max(1e-300, np.abs(ui).max()))
+    return float(res), float(cond)
+
+
+def _corr_pc(ctx, drv):
+    ode = _ode()
+    rng = ctx.np_rng(7)
+    specs = _gen_pc_specs(ctx, rng, ctx.pick(250, 2500), ctx.pick(120, 1200))
+    jobs = []
+    for s in specs:
+        M, B, K, F = (np.array(s[x], float) for x in ("M", "B", "K", "F"))
+        n, h, o = s["n"], s["h"], s["order"]
+        d0, v0 = _arr(s["d0"]), _arr(s["v0"])
+        inp = dict(s, stream="pc")
+        ctx.case(json.dumps(s, sort_keys=True), nontrivial=F.shape[1] >= 3, branch="pc:order%d" % s["order"])
+        ctx.count("pc:style-" + s["style"])
+        if s.get("blockphi"):
+            ctx.count("pc:with-rigid-body-modes")
+        if s["static"]:
+            ctx.count("pc:static-ic")
+            if s.get("blockphi"):
+                ctx.count("pc:static-ic-with-rigid-body-modes")
+        try:
+            with warnings.catch_warnings():
+                warnings.simplefilter("ignore")
+                ts = ode.SolveUnc(M, B, K, h, order=o)
+                sol = ts.tsolve(F, d0, v0, static_ic=s["static"])
+        except Exception as e:  # noqa: BLE001
+            ctx.disagree("pc-raises", inp, "%s: %s" % (type(e).__name__, str(e)[:80]), "a solution")
+            continue
+        if ts.unc:
+            ctx.skip("pc: system turned out uncoupled")
+            continue
+        el, rb = _idx(ts.el, n), _idx(ts.rb, n)
+        kd = _idx(ts.kdof, n)
+        if kd != el:
+            ctx.disagree("pc-kdof", inp, kd, el)
+            continue
+        pc = ts.pc
+        nt = F.shape[1]
+        dm0 = d0.copy() if d0 is not None else (_static_d0(K, F[:, 0], el, n) if s["static"] else np.zeros(n))
+        vm0 = v0.copy() if v0 is not None else np.zeros(n)
+        job = {"s": s, "inp": inp, "sol": sol, "el": el, "rb": rb, "req": [], "cond": 1.0, "M": M, "B": B, "K": K,
+               "F": F, "d0": dm0, "v0": vm0}
+        if bool(rb) != bool(s.get("blockphi")):
+            ctx.disagree("pc-rb-detection", inp, rb, "rigid-body modes exactly for block mode shapes")
+            continue
+        if el:
+            Mee, Bee, Kee = (X[np.ix_(el, el)] for X in (M, B, K))
+            A = _state_matrix(Mee, Bee, Kee)
+            sp = _delconj_spec(pc, A)
+            if isinstance(sp, str):
+                ctx.skip("pc: " + sp)
+                continue
+            res, cond = sp
+            if cond > 1e6 or not pc.eig_success:
+                ctx.skip("pc: eigenvectors ill conditioned (cond > 1e6)")
+                continue
+            grade = _slow_mode_grade(pc.lam, h)
+            if grade is None:
+                ctx.skip("pc: a mode with |lam| h < 1e-3 (cancellation in Ae, Be: out of the conditioning domain)")
+                continue
+            job["cond"] = cond * grade
+            ctx.count("pc:spec-checked")
+            _note("pc-eig-spec-residual-over-cond", res / max(10.0, cond))
+            if not res <= 1e-9 * max(10.0, cond):
+                # the implementation's own decomposition does not satisfy the hypotheses of delconj_recovers
+                ctx.disagree("pc-eig-spec", inp, {"residual": res, "cond": cond}, "<= 1e-9*cond")
+                continue
+            imf = np.linalg.solve(Mee, F[el])
+            ne, N = len(el), len(pc.lam)
+            job["req"].append("cpl %d %s %d %d %s %s %s %s %s %s %s %d %s" % (
+                o, bits(h), ne, N, _cmat(pc.lam), _cmat(pc.ur_v), _cmat(pc.ur_d), _cmat(pc.ur_inv_v),
+                _cmat(pc.ur_inv_d), _fmat(dm0[el]), _fmat(vm0[el]), nt, _fmat(imf)))
+            if np.any(np.abs(np.asarray(pc.lam)) < 5e-5):
+                ctx.count("pc:small-eigenvalue-branch")
+        if rb:
+            rbf = np.linalg.solve(M[np.ix_(rb, rb)], F[rb])
+            job["rbf"] = rbf
+            for i, g in enumerate(rb):
+                job["req"].append("rbrun %d %s %d %s %s %s" % (o, bits(h), nt, bits(dm0[g]), bits(vm0[g]), _fmat(rbf[i])))
+        jobs.append(job)
+    flat = [r for j in jobs for r in j["req"]]
+    rep = iter(drv.ask(flat))
+    worst = 0.0
+    for j in jobs:
+        s, sol, el, rb, F = j["s"], j["sol"], j["el"], j["rb"], j["F"]
+        n, nt = s["n"], F.shape[1]
+        d, v = np.zeros((n, nt)), np.zeros((n, nt))
+        bad = None
+        if el:
+            r = next(rep)
+            if not r.startswith("ok "):
+                raise Infra("model refuses a pc-stream system: " + r)
+            x = np.array([unbits(t) for t in r.split()[1:]])
+            d[el] = x[: len(el) * nt].reshape(len(el), nt)
+            v[el] = x[len(el) * nt:].reshape(len(el), nt)
+        for i, g in enumerate(rb):
+            r = next(rep)
+            x = np.array([unbits(t) for t in r.split()[1:]])
+            d[g], v[g] = x[:nt], x[nt:]
+        a = np.zeros((n, nt))
+        M, B, K = j["M"], j["B"], j["K"]
+        if el:
+            ee = np.ix_(el, el)
+            a[el] = np.linalg.solve(M[ee], F[el] - B[ee] @ v[el] - K[ee] @ d[el])
+        if rb:
+            a[rb] = j["rbf"]
+        sd = np.abs(d).max() + s["h"] * np.abs(v).max() + 1e-300
+        sv = np.abs(v).max() + sd / s["h"]
+        sa = np.abs(a).max() + sv / s["h"]
+        tol = 1e-9 * max(10.0, j["cond"])
+        for nm, iv, mv, sc in (("d", sol.d, d, sd), ("v", sol.v, v, sv), ("a", sol.a, a, sa)):
+            e = float(np.abs(np.asarray(iv) - mv).max() / sc)
+            worst = max(worst, e / max(10.0, j["cond"]))
+            if not e <= tol:
+                bad = (nm, e)
+                break
+        if bad:
+            ctx.disagree("pc-" + bad[0], j["inp"], {bad[0]: bad[1]}, {"tolerance": tol})
+    ctx.sample({"stream": "pc", "worst_error_over_cond": float("%.2e" % worst), "systems": len(jobs)})
+
+
+def _epq_reference(A, h, order, half):
+    """E, P, Q of the hold problem from scipy's expm of the augmented matrix (independent of pyYeti)"""
+    import scipy.linalg as sla
+
+    m = A.shape[0]
+    big = np.zeros((3 * m, 3 * m))
+    big[:m, :m] = A
+    big[:m, m:2 * m] = np.eye(m)
+    big[m:2 * m, 2 * m:] = np.eye(m)
+    X = sla.expm(big * h)
+    E, I1, J = X[:m, :m], X[:m, m:2 * m], X[:m, 2 * m:]
+    if order == 1:
+        P, Q = I1 - J / h, J / h
+    else:
+        P, Q = I1, None
+    return E, P[:, :half], (None if Q is None else Q[:, :half])
+
+
+def _corr_exp2(ctx, drv):
+    ode = _ode()
+    rng = ctx.np_rng(8)
+    specs = []
+    for _ in range(ctx.pick(250, 2500)):
+        s = _gen_general(rng)
+        s["static"] = bool(s["d0"] is None and s["nz"] == 0 and rng.random() < 0.4)
+        s["rb"], s["rf"] = None, []
+        specs.append(s)
+    for _ in range(ctx.pick(250, 2500)):
+        u = _gen_sys(ctx, rng)
+        m, b, k = _mats(u, "2d")
+        specs.append({"kind": "general", "n": u["n"], "h": u["h"], "order": u["order"], "style": "uncoupled", "nz": 0,
+                      "M": (np.eye(u["n"]) if m is None else m).tolist(), "B": b.tolist(), "K": k.tolist(),
+                      "F": u["F"], "d0": u["d0"], "v0": u["v0"], "static": u["static"], "rb": u["rb"], "rf": u["rf"],
+                      "unc": {"m": u["m"], "b": u["b"], "k": u["k"], "pack": u["pack"]}, "usys": u})
+    jobs, reqs = [], []
+    for s in specs:
+        M, B, K, F = (np.array(s[x], float) for x in ("M", "B", "K", "F"))
+        n, h, o = s["n"], s["h"], s["order"]
+        d0, v0 = _arr(s["d0"]), _arr(s["v0"])
+        inp = dict(s, stream="exp2")
+        ctx.case(json.dumps(s, sort_keys=True), nontrivial=F.shape[1] >= 3, branch="exp2:order%d" % s["order"])
+        ctx.count("exp2:style-" + s["style"])
+        if s["rf"]:
+            ctx.count("exp2:with-rf")
+        if s["static"] and s["d0"] is None:
+            ctx.count("exp2:static-ic")
+        try:
+            with warnings.catch_warnings():
+                warnings.simplefilter("ignore")
+                if "unc" in s:
+                    u = s["unc"]
+                    mm, bb, kk = _mats({"m": u["m"], "b": u["b"], "k": u["k"]}, u["pack"])
+                    ts = ode.SolveExp2(mm, bb, kk, h, rb=s["rb"], rf=s["rf"] or None, order=o)
+                else:
+                    ts = ode.SolveExp2(M, B, K, h, order=o)
+                sol = ts.tsolve(F, d0, v0, static_ic=s["static"])
+        except Exception as e:  # noqa: BLE001
+            ctx.disagree("exp2-raises", inp, "%s: %s" % (type(e).__name__, str(e)[:80]), "a solution")
+            continue
+        kd, el, rf = _idx(ts.kdof, n), _idx(ts.el, n), _idx(ts.rf, n)
+        if not kd:
+            ctx.skip("exp2: no dynamic equation")
+            continue
+        ks, nt = len(kd), F.shape[1]
+        kk_ = np.ix_(kd, kd)
+        A = _state_matrix(M[kk_], B[kk_], K[kk_])
+        E = np.block([[ts.E_vv, ts.E_vd], [ts.E_dv, ts.E_dd]])
+        P = np.asarray(ts.P)
+        Q = np.asarray(ts.Q) if o == 1 else None
+        Er, Pr, Qr = _epq_reference(A, h, o, ks)
+        es = max(1.0, np.abs(Er).max())
+        res = max(np.abs(E - Er).max() / es, np.abs(P - Pr).max() / (h * es),
+                  0.0 if Q is None else np.abs(Q - Qr).max() / (h * es))
+        ctx.count("exp2:spec-checked")
+        _note("exp2-epq-spec-residual", res)
+        if not res <= 1e-8:
+            # the implementation's own E, P, Q do not satisfy the hypotheses of exp2_step_exact
+            ctx.disagree("exp2-epq-spec", inp, {"residual": float(res)}, "<= 1e-8")
+            continue
+        if d0 is not None:
+            dm0 = d0.copy()
+        elif s["static"]:
+            dm0 = _static_d0(K, F[:, 0], el, n)
+        else:
+            dm0 = np.zeros(n)
+        vm0 = v0.copy() if v0 is not None else np.zeros(n)
+        imf = np.linalg.solve(M[kk_], F[kd])
+        reqs.append("exp2 %d %d %s %s %s%s %s %d %s" % (
+            o, ks, _fmat(E), _fmat(P), (_fmat(Q) + " ") if o == 1 else "", _fmat(dm0[kd]), _fmat(vm0[kd]), nt, _fmat(imf)))
+        jobs.append((s, inp, sol, kd, rf, M, B, K, F))
+    rep = drv.ask(reqs)
+    worst = 0.0
+    for (s, inp, sol, kd, rf, M, B, K, F), r in zip(jobs, rep):
+        if not r.startswith("ok "):
+            raise Infra("model refuses an exp2-stream system: " + r)
+        n, nt, ks = s["n"], F.shape[1], len(kd)
+        x = np.array([unbits(t) for t in r.split()[1:]])
+        d, v, a = np.zeros((n, nt)), np.zeros((n, nt)), np.zeros((n, nt))
+        d[kd] = x[: ks * nt].reshape(ks, nt)
+        v[kd] = x[ks * nt:].reshape(ks, nt)
+        kk_ = np.ix_(kd, kd)
+        a[kd] = np.linalg.solve(M[kk_], F[kd] - B[kk_] @ v[kd] - K[kk_] @ d[kd])
+        for g in rf:
+            d[g] = F[g] / K[g, g]
+        sd = np.abs(d[kd]).max() + s["h"] * np.abs(v).max() + 1e-300
+        sv = np.abs(v).max() + sd / s["h"]
+        sa = np.abs(a).max() + sv / s["h"]
+        bad = None
+        for nm, iv, mv, sc in (("d", np.asarray(sol.d)[kd], d[kd], sd), ("v", sol.v, v, sv), ("a", sol.a, a, sa)):
+            e = float(np.abs(np.asarray(iv) - mv).max() / sc)
+            worst = max(worst, e)
+            if not e <= 1e-9:
+                bad = (nm, e)
+                break
+        if bad is None and rf:
+            e = float(np.abs(np.asarray(sol.d)[rf] - d[rf]).max() / (np.abs(d[rf]).max() + 1e-300))
+            if not e <= 1e-12:
+                bad = ("d-rf", e)
+        if bad:
+            ctx.disagree("exp2-" + bad[0], inp, {bad[0]: bad[1]}, {"tolerance": 1e-9})
+    ctx.sample({"stream": "exp2", "worst_scaled_error": float("%.2e" % worst), "systems": len(jobs)})
+
+
 def correspondence(ctx):
     _quiet()
     drv = ctx.driver("C01")
@@ -861,6 +1352,9 @@ def correspondence(ctx):
     _corr_part(ctx, drv)
     _corr_hist(ctx, drv)
     _corr_coupled(ctx, drv)
+    _corr_partc(ctx, drv)
+    _corr_pc(ctx, drv)
+    _corr_exp2(ctx, drv)
     ctx.require_branches(
         ["coef:" + r for r in "rigid rigidVelo rigidFull under crit over rf partition-error".split()]
         + ["coef-tag:cut:velo", "coef-tag:cut:disp", "coef-tag:cut:rb", "coef-tag:cut:crit",
@@ -870,7 +1364,13 @@ def correspondence(ctx):
            "hist:layout-contiguous", "hist:layout-interleaved", "hist:pack-1d", "hist:pack-2d", "hist:pack-mixed",
            "hist:m-none", "hist:m-given", "hist:rb-auto", "hist:rb-given", "hist:static",
            "coupled:order0", "coupled:order1", "coupled:SolveUnc-coupled", "coupled:SolveExp1",
-           "coupled:with-rigid-body-modes", "coupled:complex-path-rigid-body-recurrence"]
+           "coupled:with-rigid-body-modes", "coupled:complex-path-rigid-body-recurrence",
+           "partc:auto", "partc:with-rb", "partc:with-rf", "partc:slices", "partc:no-slices",
+           "pc:order0", "pc:order1", "pc:with-rigid-body-modes", "pc:static-ic",
+           "pc:static-ic-with-rigid-body-modes",
+           "pc:style-modal", "pc:style-skew", "pc:style-sym+skew", "pc:style-sym",
+           "exp2:order0", "exp2:order1", "exp2:with-rf", "exp2:static-ic",
+           "exp2:style-uncoupled", "exp2:style-skew", "exp2:style-sym+skew"]
     )
 
 
@@ -1107,6 +1607,39 @@ def _oracle_coupled(s, fails):
                 fails.append({"family": fam, "what": "%s disagrees with SolveExp2 in %s" % (name, nm), "input": inp,
                               "observed": e, "required": "<= %g" % (TOL * cond)})
                 break
+    # static initial conditions (d0 not given): rigid-body rows start at zero, the elastic part in static
+    # equilibrium; reference = the modal route (uncoupled solver, static_ic) mapped through the mode shapes
+    if s["d0"] is None:
+        ode = _ode()
+        qs = _run_impl(dict(t, static=True))
+        v0 = _arr(s["v0"])
+        if not isinstance(qs, str):
+            rs = (phi @ qs.d, phi @ qs.v, phi @ qs.a)
+            runs = [("SolveExp2", lambda: ode.SolveExp2(M, B, K, s["h"], order=s["order"]).tsolve(F, None, v0, True))]
+            if min(s["k"]) > 0 or s.get("blockphi"):
+                runs.append(("SolveUnc-coupled", lambda: ode.SolveUnc(M, B, K, s["h"], order=s["order"]).tsolve(F, None, v0, True)))
+            if min(s["k"]) > 0 or s.get("blockphi"):
+                # (without block mode shapes the physical K, B have no zero rows: rb modes are not detected and
+                # static_ic needs pre_eig, as documented)
+                for name, fn in runs:
+                    try:
+                        with warnings.catch_warnings():
+                            warnings.simplefilter("ignore")
+                            so = fn()
+                    except Exception as e:  # noqa: BLE001
+                        fails.append({"family": "coupled-raises-static-ic-" + name, "what": name + " refuses static_ic",
+                                      "input": inp, "observed": "%s: %s" % (type(e).__name__, str(e)[:80]),
+                                      "required": "a solution"})
+                        continue
+                    ssd = np.abs(rs[0]).max() + s["h"] * np.abs(rs[1]).max() + 1e-300
+                    ssv = np.abs(rs[1]).max() + wmax * ssd + 1e-300
+                    for nm, x, y, sc in (("d", so.d, rs[0], ssd), ("v", so.v, rs[1], ssv)):
+                        e = _note("coupled-static-ic-" + name, _rel(np.asarray(x), y, sc) / cond) * cond
+                        if e > TOL * cond:
+                            fails.append({"family": "static-ic-" + name,
+                                          "what": "%s with static_ic differs from the modal static start in %s" % (name, nm),
+                                          "input": inp, "observed": e, "required": "<= %g" % (TOL * cond)})
+                            break
     # step subdivision on the coupled solvers
     s2 = _subdivide(s)
     var2, _ = _coupled_variants(s2)
@@ -1134,6 +1667,8 @@ def _gen_general(rng):
     M = X @ X.T / n + np.eye(n) * rng.uniform(0.5, 2.0)
     if rng.random() < 0.4:
         M = np.diag(rng.uniform(0.5, 3.0, n))
+        if rng.random() < 0.35:
+            M = np.eye(n)
     nz = int(rng.integers(0, n)) if rng.random() < 0.6 else 0  # DOF with no stiffness at all
     ne = n - nz
     wn = rng.uniform(0.3, 4.0, ne) / h / 6
@@ -1228,9 +1763,84 @@ def _oracle_general(s, fails):
                 return
 
     run("SolveExp2", lambda: ode.SolveExp2(M, B, K, h, order=o).tsolve(F, d0, v0), 1e-8)
+    # packaging of the same problem: a lumped mass given as a 1-D vector (with and without the modal pre-transformation),
+    # the first-order form through SolveExp1, force samples handed over as integer / single-precision arrays
+    Mdiag = bool(np.all(M == np.diag(np.diag(M))))
+    if Mdiag:
+        mv = np.diag(M).copy()
+        run("SolveExp2-mass-vector", lambda: ode.SolveExp2(mv, B, K, h, order=o).tsolve(F, d0, v0), 1e-8)
+        run("SolveExp2-mass-vector-pre_eig", lambda: ode.SolveExp2(mv, B, K, h, order=o, pre_eig=True).tsolve(F, d0, v0), 1e-7)
+    run("SolveExp2-pre_eig", lambda: ode.SolveExp2(M, B, K, h, order=o, pre_eig=True).tsolve(F, d0, v0), 1e-7)
+    Fi = np.round(F)
+    if np.abs(Fi).max() > 0:
+        ri = _expm_reference(M, B, K, h, Fi, d0, v0, o)
+        Ssys = np.zeros((2 * n, 2 * n))
+        Mi_ = np.linalg.inv(M)
+        Ssys[:n, :n], Ssys[:n, n:], Ssys[n:, :n] = -Mi_ @ B, -Mi_ @ K, np.eye(n)
+        y0 = np.concatenate([np.zeros(n) if v0 is None else v0, np.zeros(n) if d0 is None else d0])
+        for dt in ("int64", "float32", "float64"):
+            f1 = np.vstack([Mi_ @ Fi, np.zeros_like(Fi)]) if not Mdiag else np.vstack([Fi / np.diag(M)[:, None], np.zeros_like(Fi)])
+            if dt != "float64" and (not Mdiag or not np.all(np.diag(M) == 1.0)):
+                continue  # the first-order force M^-1 F is whole-numbered only for a unit mass
+            try:
+                with warnings.catch_warnings():
+                    warnings.simplefilter("ignore")
+                    so = ode.SolveExp1(Ssys, h, order=o).tsolve(f1.astype(dt), y0)
+                e = _rel(np.asarray(so.d)[n:], ri[0], np.abs(ri[0]).max() + h * np.abs(ri[1]).max() + 1e-300)
+                if not e <= (1e-8 if dt != "float32" else 1e-5):
+                    fails.append({"family": "general-coupled-SolveExp1-force-dtype-%s-vs-expm-reference" % dt,
+                                  "what": "SolveExp1 with a %s force array differs from the exact hold solution" % dt,
+                                  "input": inp, "observed": e, "required": "<= 1e-8"})
+            except Exception as e:  # noqa: BLE001
+                fails.append({"family": "general-coupled-raises-SolveExp1-" + dt, "what": "SolveExp1 refuses a valid system",
+                              "input": inp, "observed": repr(e)[:120], "required": "a solution"})
+    grade = _slow_mode_grade(lam, h)
+    if grade is None:
+        # a very slow mode (5e-5 <= |lam|, |lam| h < 1e-3): the coefficients of the complex path are ill conditioned
+        # (cancellation of order (|lam| h)^-2): outside the conditioning domain of the property, like w h < 1e-3 on
+        # the uncoupled path
+        _WORST["general-SolveUnc-coupled-skipped-slow-mode"] = _WORST.get("general-SolveUnc-coupled-skipped-slow-mode", 0) + 1
+        condV = float("inf")
+    else:
+        condV = condV * grade
     if condV < 1e5 and s["nz"] == 0 or (condV < 1e5 and s["style"] == "skew-on-zero-stiffness" and s["nz"] >= 2):
         # the complex-eigenvalue path needs a diagonalisable state matrix; accuracy graded by cond(V)
         run("SolveUnc-coupled", lambda: ode.SolveUnc(M, B, K, h, order=o).tsolve(F, d0, v0), 1e-9 * max(10.0, condV))
+    if s["nz"] == 0 and s["style"] not in ("uncoupled", "modal"):
+        # static initial conditions (no rigid-body mode: every equation is elastic): K d(0) = F(0), v(0) = v0, and
+        # the history is the one started from that state; explicit rb=[] is the same problem as rb=None
+        ds = np.linalg.solve(K, F[:, 0])
+        rd, rv, ra, _ = _expm_reference(M, B, K, h, F, ds, v0, o)
+        sd = np.abs(rd).max() + h * np.abs(rv).max() + 1e-300
+        sv = np.abs(rv).max() + sd / h + 1e-300
+        sa = np.abs(ra).max() + sv / h + 1e-300
+        variants = [("SolveExp2-static_ic", lambda: ode.SolveExp2(M, B, K, h, order=o).tsolve(F, None, v0, True), 1e-8)]
+        if condV < 1e5:
+            tolu = 1e-9 * max(10.0, condV)
+            variants += [
+                ("SolveUnc-coupled-static_ic", lambda: ode.SolveUnc(M, B, K, h, order=o).tsolve(F, None, v0, True), tolu),
+                ("SolveUnc-coupled-rb-empty", lambda: ode.SolveUnc(M, B, K, h, rb=[], order=o).tsolve(F, ds, v0), tolu)]
+        for name, fn, tol in variants:
+            try:
+                with warnings.catch_warnings():
+                    warnings.simplefilter("ignore")
+                    sol = fn()
+            except Exception as e:  # noqa: BLE001
+                fails.append({"family": "general-coupled-raises-" + name, "what": name + " refuses a valid coupled system",
+                              "input": inp, "observed": "%s: %s" % (type(e).__name__, str(e)[:100]), "required": "a solution"})
+                continue
+            r0 = float(np.abs(K @ np.asarray(sol.d)[:, 0] - F[:, 0]).max() / (np.abs(F[:, 0]).max() + np.abs(K).max() * np.abs(ds).max() + 1e-300))
+            if r0 > 1e-9:
+                fails.append({"family": "static-ic-not-in-equilibrium-" + name, "what": "K d(0) != F(0) with static_ic",
+                              "input": inp, "observed": r0, "required": "<= 1e-9"})
+                continue
+            for nm, x, y, sc in (("d", sol.d, rd, sd), ("v", sol.v, rv, sv), ("a", sol.a, ra, sa)):
+                e = _note("general-" + name, _rel(np.asarray(x), y, sc))
+                if not e <= tol:
+                    fails.append({"family": "general-coupled-" + name + "-vs-expm-reference",
+                                  "what": "%s differs from the exact hold solution started in static equilibrium in %s" % (name, nm),
+                                  "input": inp, "observed": e, "required": "<= %g" % tol})
+                    break
 
 
 def _oracle_one(s):
@@ -1263,6 +1873,11 @@ def _hint_specs(hints):
         st = i.get("stream")
         if st in ("hist", "coupled"):
             out.append({k_: v for k_, v in i.items() if k_ not in ("stream", "solver")})
+        elif st in ("pc", "exp2"):
+            if i.get("usys") is not None:
+                out.append(i["usys"])
+            else:
+                out.append({k_: v for k_, v in i.items() if k_ not in ("stream", "static", "rb", "rf", "blockphi")})
         elif st == "coef" and i.get("rf") == "0":
             # a one-mode system around the disagreeing coefficient input
             m, b, k, hh = i["m"], i["b"], i["k"], i["h"]
